@@ -228,15 +228,23 @@ func driveC14(seed int64, tier, out, replay string) {
 		keyIDs := map[string]int{}
 		var hist []string
 		var missObs []string
+		// time is measured (milliseconds since the history began, read just before the request is sent); an hour is
+		// represented by a TTL longer than any history
+		ttlTicks := map[string]int{"0": 0, "40ms": 40, "1h": 20000}[c.TTL]
+		began := time.Now()
 		now := 0
-		ttlTicks := map[string]int{"0": 0, "40ms": 1000, "1h": 20000}[c.TTL]
+		inconclusive := false
+		lastSeen := map[string][]int{}
 		for k, e := range c.History {
 			if e.GapBig {
 				time.Sleep(100 * time.Millisecond)
-				now += 5000
 			}
-			now++
 			pr, _ := plain.Do(e.Op)
+			if t := int(time.Since(began).Milliseconds()); t > now {
+				now = t
+			} else {
+				now++
+			}
 			before := cp.calls
 			var cr map[string]interface{}
 			if c.Parallel > 1 {
@@ -270,15 +278,26 @@ func driveC14(seed int64, tier, out, replay string) {
 			if _, ok := keyIDs[ks]; !ok {
 				keyIDs[ks] = len(keyIDs)
 			}
+			for _, t0 := range lastSeen[ks] {
+				// an entry about as old as the TTL: the harness clock and the planner's clock may disagree on which side
+				if age := now - t0; c.TTL == "40ms" && age > 25 && age < 55 {
+					inconclusive = true
+				}
+			}
+			lastSeen[ks] = append(lastSeen[ks], now)
 			hist = append(hist, fmt.Sprintf("(%d, %d)", keyIDs[ks], now))
 			missObs = append(missObs, hx.CoqBool(miss))
 		}
 		if what != "" {
 			obs.Fail(idx, what, c)
 		}
-		if c.Parallel > 1 {
-			// with concurrent copies the miss count per request is schedule dependent: only the answers are compared
+		if c.Parallel > 1 || inconclusive {
+			// with concurrent copies the miss count per request is schedule dependent: only the answers are compared;
+			// likewise when an entry's age was within 15 ms of the TTL at a lookup
 			coq = append(coq, "mkCase 0 [] []")
+			if inconclusive {
+				obs.Count("timing_inconclusive")
+			}
 		} else {
 			coq = append(coq, fmt.Sprintf("mkCase %d [%s] [%s]", ttlTicks, strings.Join(hist, "; "), strings.Join(missObs, "; ")))
 		}
